@@ -102,7 +102,7 @@ class C03(Check):
         return {"examples": 16000, "shards": 16, "depth": 4, "maxlen": 100}
 
     def strategy(self, tier):
-        letters = alphabet(4, 2, True) + [["info", i] for i in range(4)]
+        letters = alphabet(4, 2, True) + [["info", i] for i in range(4)] + [["aainit", i] for i in range(4)]
         maxlen = self.budget(tier)["maxlen"]
         # weighted: the interesting transitions need successful opens and logins
         hot = ([l for l in letters if l[0] == "open"] * 3 +
@@ -129,6 +129,22 @@ class C03(Check):
                     v.program = prog
                     return v
                 n += 1
+        # the same automaton with a re-authentication request pending: every sequence of <= 3 letters after [open RW, user login, aainit]
+        tail = [["logout", 0], ["login", 0, "SO", "right"], ["login", 0, "USER", "right"], ["login", 0, "CTX", "right"], ["login", 0, "CTX", "wrong"],
+                ["login", 0, "CTX", "other"], ["open", 0, 0], ["open", 0, 1], ["login", 1, "CTX", "wrong"], ["aainit", 0]]
+        for L in range(1, 4):
+            for seq in itertools.product(range(len(tail)), repeat=L):
+                total += 1
+                if total % nshards != shard:
+                    continue
+                prog = [["open", 0, 1], ["login", 0, "USER", "right"], ["aainit", 0]] + [tail[i] for i in seq]
+                try:
+                    self.run_program(ctx, prog)
+                except Violation as v:
+                    v.program = prog
+                    return v
+                n += 1
+                ctx.label("reauth_pending_sequences")
         ctx.extra["exhaustive_sequences"] = n
         ctx.extra["exhaustive_params"] = {"depth": depth, "alphabet_size": len(letters), "alphabet": letters}
         ctx.extra["exhaustive"] = True
@@ -300,6 +316,17 @@ class C03(Check):
                 h = sess(op[1])
                 r = w.C_GetSessionInfo(s=h)
                 rv = r["rv"]
+            elif kind == "aainit":
+                # leaves a re-authentication request pending in the session (private ALWAYS_AUTHENTICATE key + C_SignInit): the context-specific
+                # logins of the alphabet then reach the PIN check instead of CKR_OPERATION_NOT_INITIALIZED.  Never changes sessions or login state.
+                h = sess(op[1])
+                from vlib.objects import T as T_, base_template as bt_
+                r = w.C_CreateObject(s=h, tpl=T_(*bt_("rsa_priv", 0)) + T_(("CKA_TOKEN", False), ("CKA_PRIVATE", True), ("CKA_SIGN", True), ("CKA_ALWAYS_AUTHENTICATE", True)))
+                rv = r["rv"]
+                if rv == K.CKR_OK:
+                    rv = w.C_SignInit(s=h, mech={"m": K.CKM_RSA_PKCS}, key=r["h"])["rv"]
+                    if rv == K.CKR_OK:
+                        labels.add("reauthentication_pending")
             # ---- observation after every call -------------------------------------------------
             self.observe(w, m, prog, step, "%s -> %s" % (op, K.rvname(rv)))
             if rv != K.CKR_OK and m.sessions:
